@@ -33,6 +33,7 @@ void run_sorter(const SorterSpec &s, RunResult &res, SorterOutcome &out)
 	if (s.max_mem) mtbl_sorter_options_set_max_memory(so, s.max_mem);
 	else if (s.set_zero) mtbl_sorter_options_set_max_memory(so, 0);
 	mtbl_sorter_options_set_temp_dir(so, s.tmpdir.c_str());
+	if (!s.late_mkdir.empty()) mkdir(s.late_mkdir.c_str(), 0700);	// the name is only used when the first chunk is spilled
 	mtbl_sorter_options_set_merge_func(so, s.fail_on_F ? merge_failF_cb : merge_union_cb, s.stateless_merge ? stateless_merge_ctx(s.mfunc) : (void *)&mc);
 	if (s.pool) mtbl_sorter_options_set_threadpool(so, s.pool);
 	mtbl_sorter *sorter = mtbl_sorter_init(so);
